@@ -8,7 +8,12 @@ THEOREMS = ['C20_bop_iff','C20_single_component','C20_refl','C20_symm','C20_mul_
 RULE = ("bcmpc (the same comparisons plus the scalar impl's answer per component; opinion answer = conjunction, checked exactly: components equal through different branches -- absolute tolerance vs ulps/relative --, tolerances equal to a rounded component difference and its float neighbours, NaN/inf components); bcmp (==, abs_diff_eq, relative_eq, ulps_eq) on pairs of binomial opinions differing in every subset of the four components by "
         "{0, 1 ulp, tol/2, 2*tol, large} x tolerances {0, default, 1e-6, huge} x maxulps {0,1,4}; each pair also reversed (symmetry) and "
         "paired with itself (reflexivity) as cross-case checks; meq on multinomial opinions differing in one cell, sizes 1..4 and 2-D, "
-        "families A/M/D/N; f32+f64. non-trivial = distinct case line")
+        "families A/M/D/N; bcmpd: the DEFAULT-tolerance forms abs_diff_eq!(x,y), relative_eq!(x,y), ulps_eq!(x,y) and the forms with "
+        "only max_relative / max_ulps / epsilon given, opinion answer vs the scalar type's own answers with its own defaults, on pairs whose "
+        "components differ by 0, 1..9 ulps, and (f64) amounts between 4 ulps and 1e-7 (between 4 ulps and 1e-3 in f32), at values near 0 "
+        "and in [0.5,1]; meq_alias: a multinomial opinion compared with ITSELF (w == w, w.as_ref() == w.as_ref(), OpinionRefs borrowing the "
+        "same simplex and base-rate object) with NaN / infinite cells in the belief, the uncertainty or the base rate, all families, "
+        "1-D and 2-D: false iff a cell is NaN; f32+f64. non-trivial = distinct case line")
 EXHAUSTIVE = {}
 CROSS_GROUPS = [0]
 LEVEL_TEXT = ("Theorems: each of the four comparisons on BOpinion is the conjunction of the same scalar comparison on b, d, u and a; "
@@ -124,6 +129,50 @@ def cases(rng, tier):
                 i = rng.randrange(len(z))
                 z[i] = perturb(rng, fmt, z[i], 0.0, rng.choice([1, 1, 4]))
             out.append(G.line("meq", fmt, fam + ".o", ints, w + z))
+        # default tolerances (op bcmpd): differences below, at and far above the scalar type's default epsilon / 4 ulps
+        for _ in range(N // 2):
+            kind = rng.choice([1, 2, 3, 1, 2, 3, 4, 5, 6, 7])
+            x = [float(v) for v in G.rand_bop(rng, rng.choice([8, 16, 64]))]
+            if rng.random() < 0.5:
+                x = G.float_bop(rng, fmt)
+            y = list(x)
+            hi = 1e-7 if not f32 else 1e-3
+            for i in range(4):
+                z = rng.random()
+                if z < 0.45:
+                    continue
+                if z < 0.6:
+                    y[i] = G.step(fmt, x[i], rng.choice([1, 2, 3, 4, 5, 8, 9]) * (rng.choice([1, -1]) if x[i] > 0 else 1))
+                elif z < 0.9:
+                    # between 4 ulps of 1 and `hi`, log-uniform
+                    import math as _m
+                    dlt = _m.exp(rng.uniform(_m.log(5 * e), _m.log(hi)))
+                    y[i] = G.round_fmt(fmt, x[i] + dlt * (rng.choice([1, -1]) if x[i] > dlt else 1))
+                else:
+                    y[i] = perturb(rng, fmt, x[i], e, rng.randint(1, 4))
+            t = rng.choice([0.0, e, 4 * e, 1e-9 if not f32 else 1e-5, hi, 0.5])
+            maxulps = rng.choice([0, 1, 4, 8, 1000])
+            out.append(G.line("bcmpd", fmt, "B.o", [kind, maxulps], x + y + [t]))
+            if rng.random() < 0.3:
+                out.append(G.line("bcmpd", fmt, "B.o", [kind, maxulps], y + x + [t]))
+        # the same object on both sides of == (op meq_alias), with NaN / infinite cells
+        for _ in range(N // 4):
+            if rng.random() < 0.7:
+                n = rng.choice([1, 2, 3, 4]); ints = [n]
+                fam = rng.choice(G.FAMS_1D)
+            else:
+                n0, n1 = rng.choice([1, 2, 3]), rng.choice([1, 2, 3]); n = n0 * n1; ints = [n0, n1]
+                fam = rng.choice(["M", "D", "N"])
+            w = [float(v) for v in G.rand_opinion(rng, n, 16)]
+            z = rng.random()
+            if z < 0.75:
+                # one special cell: anywhere, or aimed at the belief / the uncertainty / the base rate
+                where = rng.choice(["any", "b", "u", "a"])
+                i = {"any": rng.randrange(len(w)), "b": rng.randrange(n), "u": n, "a": n + 1 + rng.randrange(n)}[where]
+                w[i] = rng.choice([float("nan")] * 4 + [float("inf"), float("-inf")])
+                if rng.random() < 0.2:
+                    w[rng.randrange(len(w))] = float("nan")
+            out.append(G.line("meq_alias", fmt, fam + ".o", ints, w))
     return out
 
 
